@@ -1074,6 +1074,12 @@ pub const POISONS: &[Poison] = &[
     Poison { id: "enum_tag_only_struct_variants", poison: "#[typeshare]\n#[serde(tag = \"type\")]\npub enum Pz { Idle, Data { v: u32 }, More { a: String, b: bool } }\n", skipped: None },
     Poison { id: "enum_content_only_tuple", poison: "#[typeshare]\n#[serde(content = \"c\")]\npub enum Pz { Idle, Data(String) }\n", skipped: None },
     Poison { id: "enum_no_attrs_struct_variant", poison: "#[typeshare]\npub enum Pz { Idle, Data { v: u32 } }\n", skipped: Some("#[typeshare]\npub enum Pz { Idle, #[serde(skip)] Data { v: u32 } }\n") },
+    Poison { id: "flatten_in_second_serde_attr", poison: "#[typeshare]\npub struct Pz { pub ok: u32, #[serde(rename = \"r\")] #[serde(flatten)] pub rest: HashMap<String, String> }\n", skipped: Some("#[typeshare]\npub struct Pz { pub ok: u32, #[serde(rename = \"r\")] #[serde(flatten)] #[serde(skip)] pub rest: HashMap<String, String> }\n") },
+    Poison { id: "flatten_after_default_same_attr", poison: "#[typeshare]\npub struct Pz { pub ok: u32, #[serde(default, flatten)] pub rest: HashMap<String, String> }\n", skipped: Some("#[typeshare]\npub struct Pz { pub ok: u32, #[serde(default, flatten, skip)] pub rest: HashMap<String, String> }\n") },
+    Poison { id: "flatten_in_second_serde_attr_struct_variant", poison: "#[typeshare]\n#[serde(tag = \"type\", content = \"content\")]\npub enum Pz { Ok(u32), Shape { w: u32, #[serde(default)] #[doc = \"x\"] #[serde(flatten)] rest: HashMap<String, String> } }\n", skipped: None },
+    Poison { id: "u64_skip_in_second_serde_attr", poison: "#[typeshare]\npub struct Pz { pub ok: u32, #[serde(default)] pub big: u64 }\n", skipped: Some("#[typeshare]\npub struct Pz { pub ok: u32, #[serde(default)] #[serde(skip)] pub big: u64 }\n") },
+    Poison { id: "tag_in_second_serde_attr_on_unit_enum", poison: "#[typeshare]\n#[serde(rename_all = \"camelCase\")]\n#[serde(tag = \"type\")]\npub enum Pz { A, B }\n", skipped: None },
+    Poison { id: "tag_content_split_missing_content", poison: "#[typeshare]\n#[serde(rename_all = \"camelCase\")]\n#[serde(tag = \"type\")]\npub enum Pz { Ok(u32), Other(String) }\n", skipped: None },
     Poison { id: "flatten_in_struct_variant", poison: "#[typeshare]\n#[serde(tag = \"type\", content = \"content\")]\npub enum Pz { Ok(u32), Shape { w: u32, #[serde(flatten)] rest: HashMap<String, String> } }\n", skipped: Some("#[typeshare]\n#[serde(tag = \"type\", content = \"content\")]\npub enum Pz { Ok(u32), Shape { w: u32, #[serde(skip)] #[serde(flatten)] rest: HashMap<String, String> } }\n") },
     Poison { id: "const_u64_type", poison: "#[typeshare]\npub const PZ: u64 = 5;\n", skipped: None },
     Poison { id: "const_float_literal", poison: "#[typeshare]\npub const PZ: f64 = 1.5;\n", skipped: None },
